@@ -21,17 +21,18 @@ func (Driver) Info() core.Info {
 	return core.Info{
 		Title: "unification returns a type every input really converts to",
 		Rule: "case = list of 1..4 types: drawn from a fixed 64-type pool (primitives, lists, sets, maps, tuples, objects, nested, with and without the dynamic placeholder, two capsule types) " +
-			"with strategies biased towards lists next to tuples and maps next to objects, optionally wrapped in a common or mixed constructor, now and then a random type from the shared generator; " +
-			"plus every ordered pair of pool types (exhaustive) and a fixed corpus. For each list Unify and UnifyUnsafe are called; every returned non-nil conversion is applied to 6 values of its input type " +
-			"(known, with nulls, with unknown/refined-unknown members, null, unknown). distinct = hash of the type list; non-trivial = unification succeeded in some mode and at least one returned conversion was applied to a value",
+			"with strategies biased towards lists next to tuples and maps next to objects, optionally wrapped in a common or mixed constructor, now and then a random type from the shared generator, and (1 list in 5) a random type of depth 2..4 next to derived variants of itself (leaves swapped, list<->tuple, map<->object, set->list, placeholder inserted); " +
+			"plus every ordered pair of pool types, every ordered triple within the list/tuple and the map/object family (thorough: every ordered triple of the pool and every ordered quadruple within the two families) and a fixed corpus. For each list Unify and UnifyUnsafe are called; every returned non-nil conversion is applied to 7 values of its input type " +
+			"(known, with nulls, with unknown/refined-unknown members, null, unknown, marked). distinct = hash of the type list; non-trivial = unification succeeded in some mode and at least one returned conversion was applied to a value",
 		Assumptions: []string{
 			"a value 'of its input type' is a value whose type conforms to the input type (placeholders instantiated by the value generator)",
 			"'placeholder-free inputs' = no type of the list contains DynamicPseudoType at any depth",
-			"'safe unification never relies on an unsafe conversion' is decided as: in safe mode, for placeholder-free inputs, no returned conversion errors on a generated value and convert.GetConversion(input, result) exists",
+			"'safe unification never relies on an unsafe conversion' is decided as: in safe mode, for placeholder-free inputs, no returned conversion errors on a generated value, and a safe route exists: convert.GetConversion(input, result) != nil or, for a tuple next to lists / an object next to maps, safe conversions input -> M -> result where M is what the structural inputs unify to on their own",
+			"a nil conversion is read as 'the value is used as it is' (doc comment of convert.Unify), so with placeholders in the list the input type must conform to the unified type",
 			"optional-attribute annotations are not generated: no value has such a type, so the value quantifier would be empty",
 			"type comparisons go through model.TNodeOf / TypeEq / Conforms, not through Type.Equals",
 		},
-		MinNontrivial: 500,
+		MinNontrivial: 10000,
 	}
 }
 
@@ -53,12 +54,14 @@ const (
 	facetNilVal     = "returned conversion yields NilVal without an error"
 	facetUnsafeFail = "Unify succeeded on placeholder-free inputs but UnifyUnsafe failed"
 	facetNoSafeConv = "safe unification chose a type to which no safe conversion exists"
+	facetNilNonConf = "conversion is nil although values of the input type do not conform to the result type"
 )
 
 type uniResult struct {
-	ty    cty.Type
-	convs []convert.Conversion
-	ok    bool // call returned (no panic) and ty != NilType
+	ty       cty.Type
+	convs    []convert.Conversion
+	ok       bool // call returned (no panic) and ty != NilType
+	panicked bool
 }
 
 func siteOf(unsafe bool) string {
@@ -135,9 +138,66 @@ func shapeClass(types []cty.Type, i int, unified cty.Type, unsafe bool) string {
 	return s
 }
 
+// safeRouteExists decides "safe unification never relies on an unsafe
+// conversion" structurally for input i of a placeholder-free list ("" = yes):
+// either the plain safe conversion input -> unified type exists, or - where a
+// tuple sits next to lists / an object next to maps, the only place where
+// unify.go composes two conversions - safe conversions exist from the input to
+// the type M the structural inputs unify to on their own and from M to the
+// unified type. (Safe conversions are not transitive: object{a:number,k:bool}
+// -> object{k:bool} -> map(bool) is a safe chain although number -> bool does
+// not exist, so the plain conversion alone would be too much to ask.)
+func safeRouteExists(c *core.Ctx, types []cty.Type, i int, unified cty.Type) string {
+	get := func(from, to cty.Type) (cv convert.Conversion, ok bool) {
+		o := core.Guard(func() { cv = convert.GetConversion(from, to) })
+		c.Eval(1)
+		return cv, !o.Panicked
+	}
+	direct, ok := get(types[i], unified)
+	if !ok || direct != nil {
+		return "" // a panic of GetConversion is C08's subject
+	}
+	in := types[i]
+	var isStruct func(cty.Type) bool
+	switch {
+	case in.IsTupleType() && unified.IsListType():
+		isStruct = cty.Type.IsTupleType
+	case in.IsObjectType() && unified.IsMapType():
+		isStruct = cty.Type.IsObjectType
+	default:
+		return fmt.Sprintf("GetConversion(%#v, %#v) is nil", in, unified)
+	}
+	var structs []cty.Type
+	for _, t := range types {
+		if isStruct(t) {
+			structs = append(structs, t)
+		}
+	}
+	var mid cty.Type
+	o := core.Guard(func() { mid, _ = convert.Unify(structs) })
+	if o.Panicked || mid == cty.NilType {
+		return fmt.Sprintf("GetConversion(%#v, %#v) is nil and the structural inputs do not unify on their own", in, unified)
+	}
+	c.Count("clause:safe-conversion-exists:via-intermediate-type")
+	if !model.TypeEq(model.TNodeOf(in), model.TNodeOf(mid)) {
+		if cv, ok := get(in, mid); ok && cv == nil {
+			return fmt.Sprintf("GetConversion(%#v, %#v) is nil, and so is the first step GetConversion(input, %#v)", in, unified, mid)
+		}
+	}
+	if !model.TypeEq(model.TNodeOf(mid), model.TNodeOf(unified)) {
+		if cv, ok := get(mid, unified); ok && cv == nil {
+			return fmt.Sprintf("GetConversion(%#v, %#v) is nil, and so is the second step GetConversion(%#v, unified)", in, unified, mid)
+		}
+	}
+	return ""
+}
+
 // valueClass names the most specific feature of a value that conversions are
 // known to special-case.
 func valueClass(v cty.Value) string {
+	if v.ContainsMarked() {
+		return "marked"
+	}
 	if !v.IsKnown() {
 		return "unknown"
 	}
@@ -189,7 +249,7 @@ func dynClass(types []cty.Type, i int) string {
 }
 
 func (Driver) Run(c *core.Ctx) {
-	n := int64(c.N(1250, 15625)) // x16 batches = 20 k lists quick, x64 = 1 M thorough
+	n := int64(c.N(3750, 31250)) // x16 batches = 60 k lists quick, x64 = 2 M thorough
 	for i := int64(0); i < n; i++ {
 		if !c.Want(i) {
 			continue
@@ -197,9 +257,15 @@ func (Driver) Run(c *core.Ctx) {
 		r := c.RNG(i)
 		types, strat := genTypes(r)
 		c.Count("strategy:" + strat)
-		checkList(c, i, types, nil, r)
+		if checkList(c, i, types, nil, r) {
+			c.Count("strategy-nontrivial:" + strat)
+		}
 	}
 	runPairs(c, 2_000_000_000)
+	runTriples(c, 3_000_000_000)
+	if !c.Quick() {
+		runQuads(c, 4_000_000_000)
+	}
 	if c.Batch == 0 {
 		runCorpus(c, 1_000_000_000)
 	}
@@ -221,13 +287,83 @@ func runPairs(c *core.Ctx, base int64) {
 		}
 	}
 	if c.Batch == 0 {
-		c.Exhaustive(fmt.Sprintf("every ordered pair of the %d pool types, both modes, 6 values per converted input", len(poolAll)))
+		c.Exhaustive(fmt.Sprintf("every ordered pair of the %d pool types, both modes, 7 values per converted input", len(poolAll)))
+	}
+}
+
+// runTriples enumerates ordered triples (seed-independent, split between the
+// batches): in the quick tier every triple within the sequence family (lists,
+// tuples, the placeholder) and within the mapping family (maps, objects, the
+// placeholder) - the families in which unify.go composes conversions; in the
+// thorough tier every triple of the whole pool.
+func runTriples(c *core.Ctx, base int64) {
+	var subs [][]cty.Type
+	if c.Quick() {
+		subs = [][]cty.Type{
+			append(append(append([]cty.Type{}, poolLists...), poolTuples...), tDyn),
+			append(append(append([]cty.Type{}, poolMaps...), poolObjects...), tDyn),
+		}
+	} else {
+		subs = [][]cty.Type{poolAll}
+	}
+	k := int64(0)
+	for si, sub := range subs {
+		for a := range sub {
+			for b := range sub {
+				for d := range sub {
+					k++
+					if !c.Mine(k) || !c.Want(base+k) {
+						continue
+					}
+					r := core.NewRand(core.HashString(fmt.Sprintf("c09-triple-%d-%d-%d-%d", len(subs)*10+si, a, b, d)))
+					checkList(c, base+k, []cty.Type{sub[a], sub[b], sub[d]}, nil, r)
+					c.Count("pool-triples")
+				}
+			}
+		}
+	}
+	if c.Batch == 0 {
+		if c.Quick() {
+			c.Exhaustive(fmt.Sprintf("every ordered triple of the %d sequence-family pool types (lists, tuples, dynamic) and of the %d mapping-family pool types (maps, objects, dynamic), both modes, 7 values per converted input", len(subs[0]), len(subs[1])))
+		} else {
+			c.Exhaustive(fmt.Sprintf("every ordered triple of the %d pool types, both modes, 7 values per converted input", len(poolAll)))
+		}
+	}
+}
+
+// runQuads (thorough only): every ordered quadruple within the sequence family
+// and within the mapping family.
+func runQuads(c *core.Ctx, base int64) {
+	subs := [][]cty.Type{
+		append(append(append([]cty.Type{}, poolLists...), poolTuples...), tDyn),
+		append(append(append([]cty.Type{}, poolMaps...), poolObjects...), tDyn),
+	}
+	k := int64(0)
+	for si, sub := range subs {
+		for a := range sub {
+			for b := range sub {
+				for d := range sub {
+					for e := range sub {
+						k++
+						if !c.Mine(k) || !c.Want(base+k) {
+							continue
+						}
+						r := core.NewRand(core.HashString(fmt.Sprintf("c09-quad-%d-%d-%d-%d-%d", si, a, b, d, e)))
+						checkList(c, base+k, []cty.Type{sub[a], sub[b], sub[d], sub[e]}, nil, r)
+						c.Count("pool-quadruples")
+					}
+				}
+			}
+		}
+	}
+	if c.Batch == 0 {
+		c.Exhaustive(fmt.Sprintf("every ordered quadruple of the %d sequence-family pool types and of the %d mapping-family pool types, both modes, 7 values per converted input", len(subs[0]), len(subs[1])))
 	}
 }
 
 // checkList runs both modes on one type list. extra[i] are additional fixed
 // values for input i (corpus witnesses); r supplies the generated values.
-func checkList(c *core.Ctx, idx int64, types []cty.Type, extra [][]cty.Value, r *core.Rand) {
+func checkList(c *core.Ctx, idx int64, types []cty.Type, extra [][]cty.Value, r *core.Rand) bool {
 	desc := func() string { return typesGo(types) }
 	c.Begin(idx, desc)
 	nodes := make([]*model.TNode, len(types))
@@ -261,6 +397,10 @@ func checkList(c *core.Ctx, idx int64, types []cty.Type, extra [][]cty.Value, r 
 		unsafe := m == 1
 		res[m] = callUnify(c, types, unsafe)
 		if !res[m].ok {
+			if eq && !res[m].panicked {
+				c.Count("clause:all-equal")
+				c.Violate(siteOf(unsafe), facetEqualType, kindOf(types[0]), typesGo(types), "no unification (NilType)")
+			}
 			continue
 		}
 		applied += checkResult(c, types, nodes, vals, res[m], unsafe, hasDyn, eq)
@@ -283,6 +423,7 @@ func checkList(c *core.Ctx, idx int64, types []cty.Type, extra [][]cty.Value, r 
 		}
 		c.Sample(s)
 	}
+	return applied > 0
 }
 
 func callUnify(c *core.Ctx, types []cty.Type, unsafe bool) uniResult {
@@ -300,7 +441,7 @@ func callUnify(c *core.Ctx, types []cty.Type, unsafe bool) uniResult {
 	c.Count("op:" + site)
 	if o.Panicked {
 		c.Violate(site, "panic: "+core.PanicClass(o.PanicMsg), "unify-call "+dynClass(types, 0), typesGo(types), o.PanicMsg+"\n"+o.Stack)
-		return uniResult{}
+		return uniResult{panicked: true}
 	}
 	if u.ty == cty.NilType {
 		c.Count("outcome:" + site + ":no-unification")
@@ -350,11 +491,21 @@ func checkResult(c *core.Ctx, types []cty.Type, nodes []*model.TNode, vals [][]c
 			}
 			if !unsafe && !same {
 				c.Count("clause:safe-conversion-exists")
-				var direct convert.Conversion
-				o := core.Guard(func() { direct = convert.GetConversion(types[i], u.ty) })
-				c.Eval(1)
-				if !o.Panicked && direct == nil {
-					c.Violate(site, facetNoSafeConv, shapeClass(types, i, u.ty, unsafe), wit, fmt.Sprintf("GetConversion(%#v, %#v) is nil", types[i], u.ty))
+				if why := safeRouteExists(c, types, i, u.ty); why != "" {
+					c.Violate(site, facetNoSafeConv, shapeClass(types, i, u.ty, unsafe), wit, why)
+				}
+			}
+		}
+		if hasDyn {
+			// a nil conversion means "already of the appropriate type" (doc comment of convert.Unify), so with
+			// placeholders around every value of the input type must conform to the unified type as it is.
+			// (The existence of a direct safe conversion is NOT demanded here: tuple -> list(X) -> list(dynamic)
+			// can exist where GetConversion(tuple, list(dynamic)) does not, because the latter unifies the
+			// tuple's members on their own.)
+			if cv == nil {
+				c.Count("clause:nil-with-placeholders-conforms")
+				if !model.Conforms(nodes[i], un) {
+					c.Violate(site, facetNilNonConf, shapeClass(types, i, u.ty, unsafe), wit, fmt.Sprintf("input %d is %#v, unified type %#v", i, types[i], u.ty))
 				}
 			}
 		}
@@ -363,6 +514,7 @@ func checkResult(c *core.Ctx, types []cty.Type, nodes []*model.TNode, vals [][]c
 			continue
 		}
 		c.Count("conversion:non-nil")
+		c.Count("path:" + modeName(unsafe) + ":" + shapeClass(types, i, u.ty, unsafe))
 		for _, v := range vals[i] {
 			var out cty.Value
 			var err error
